@@ -218,9 +218,15 @@ Definition check_envlimits (e : limits_env) (obs : list Z) : list N :=
 (** attributes retained, value length of the first one (or -1); count limit 0 is not generated *)
 Definition loglimits_behaviour (cnt len : Z) : list Z :=
   let a := retained cnt lim_n in [a; if (a =? 0)%Z then (-1)%Z else retained len lim_len].
+(** A count limit of 0 is documented as "no attributes" while the code keeps all of them (the
+    C17 finding F-C17-2): for a RESOLVED limit of 0 both behaviours are accepted here (what C20
+    judges is which source the 0 came from). *)
+Definition loglimits_ok (cnt len : Z) (obs : list Z) : bool :=
+  listZ_eqb (loglimits_behaviour cnt len) obs ||
+  ((cnt =? 0)%Z && listZ_eqb (loglimits_behaviour (-1) len) obs).
 Definition check_loglimits (oc ol : option Z) (ec el : bytes) (obs : list Z) : list N :=
-  flag (listZ_eqb (loglimits_behaviour (log_limit oc ec 128) (log_limit ol el (-1))) obs) V_MISMATCH ++
-  flag (listZ_eqb (loglimits_behaviour (log_limit_expected oc ec 128) (log_limit_expected ol el (-1))) obs) V_SPECFAIL.
+  flag (loglimits_ok (log_limit oc ec 128) (log_limit ol el (-1)) obs) V_MISMATCH ++
+  flag (loglimits_ok (log_limit_expected oc ec 128) (log_limit_expected ol el (-1)) obs) V_SPECFAIL.
 
 (** Sampling probes: parents (none, remote sampled, remote unsampled, local sampled, local
     unsampled) x 16 positions (2k+1)/32 of the 63-bit range. *)
